@@ -15,7 +15,7 @@ ROOT = os.path.dirname(os.path.dirname(os.path.abspath(__file__)))
 EXPECT = {
     "e918bcd": ["C13"], "168950d": ["C18"], "e9a13b8": ["C11"], "76e6496": ["C07"], "19bd133": ["C19"],
     "c83c1d0": ["C17"], "6286424": ["C20"], "25682d1": ["C02", "C18"], "f7438fe": ["C12", "C20"],
-    "560a9c2": ["C13"], "77ff819": ["C12"], "9e56c01": ["C04"], "78fad10": ["C08", "C05"], "6059b21": ["C05"], "e283591": ["C06", "C18"], "1e9baef": ["C13", "C08"], "1a45ea6": ["C14", "C03"], "19fdddb": ["C09"], "3c6aedf": ["C02"], "66efc63": ["C06"], "f8e1570": ["C19"], "8a9e6c8": ["C01"], "0dc1a95": ["C18"], "c031272": ["C03"], "8f7f5ef": ["C03", "C02"], "be3ace6": ["C02"], "65f01d7": ["C04"], "e3bcb75": ["C07"], "3d81168": ["C10", "C11", "C04"],
+    "560a9c2": ["C13"], "cc8e66b": ["C02"], "ed07526": ["C05"], "4509bc0": ["C04"], "77ff819": ["C12"], "9e56c01": ["C04"], "78fad10": ["C08", "C05"], "6059b21": ["C05"], "e283591": ["C06", "C18"], "1e9baef": ["C13", "C08"], "1a45ea6": ["C14", "C03"], "19fdddb": ["C09"], "3c6aedf": ["C02"], "66efc63": ["C06"], "f8e1570": ["C19"], "8a9e6c8": ["C01"], "0dc1a95": ["C18"], "c031272": ["C03"], "8f7f5ef": ["C03", "C02"], "be3ace6": ["C02"], "65f01d7": ["C04"], "e3bcb75": ["C07"], "3d81168": ["C10", "C11", "C04"],
 }
 
 
